@@ -291,7 +291,8 @@ class CFG(object):
     def nodes_in(self, astnode):
         """All CFG nodes whose ast lies inside `astnode` (by identity walk)."""
         inside = set(id(x) for x in ast.walk(astnode))
-        return [n for n in self.nodes if n.ast is not None and id(n.ast) in inside]
+        return [n for n in self.nodes if (n.ast is not None and id(n.ast) in inside)
+                or (n.ast is None and n.owner is not None and id(n.owner) in inside and n.owner is not astnode)]
 
     def reachable(self, src=None, avoid_nodes=(), avoid_edges=(), labels_excluded=()):
         """Set of nodes reachable from src (default entry) without entering avoid_nodes and
